@@ -1,15 +1,9 @@
 (** EnvSpacesProofs.v — lemmas for property C18 (model: model/EnvSpaces.v). *)
-From JSL Require Import Base Instance Dstate Filters World Graph Generator EnvSpaces
+From JSL Require Import Base Instance Dstate Filters World Graph Generator EnvSpaces EnvSpacesSpec
      Feasible ListFacts OpIds DispatchFun Inv Run Atomic.
 From Coq Require Import Lia Permutation.
 
 (** ** Legal decisions are in the action space *)
-
-(** "A job with operations left together with an eligible machine id of its
-    next operation, or -1 for a single-machine operation". *)
-Definition legal (I : instance) (d : dstate) (j : nat) (m : Z) : Prop :=
-  exists o, get_op I j (nthN (jnext d) j) = Some o /\
-    ((exists k, In k (machines o) /\ m = Z.of_nat k) \/ (m = -1 /\ exists k, machines o = [k])).
 
 Lemma action_contains_pair I j m :
   (j < num_jobs I)%nat -> -1 <= m < Z.of_nat (num_machines I) ->
@@ -81,8 +75,6 @@ Proof.
   split; [reflexivity|]. rewrite app_length, repeat_length. lia.
 Qed.
 
-Definition rect {A} (m : list (list A)) : Prop := Forall (fun row => length row = width m) m.
-
 Lemma pad2_none {A} (fill : A) r c m :
   pad2 fill r c m = None <-> (r < length m \/ c < width m)%nat.
 Proof.
@@ -135,13 +127,6 @@ Proof.
     rewrite (nth_repeat (repeat fill c)) by lia. apply nth_repeat. exact Hj.
 Qed.
 
-Lemma box_contains_spec {A} r c (x : list (list A)) :
-  box_contains r c x = true <-> length x = r /\ Forall (fun row => length row = c) x.
-Proof.
-  unfold box_contains. rewrite andb_true_iff, Nat.eqb_eq, forallb_forall, Forall_forall.
-  split; intros [H1 H2]; split; auto; intros y Hy; specialize (H2 y Hy); apply Nat.eqb_eq; exact H2.
-Qed.
-
 Lemma box_rect {A} r c (x : list (list A)) : box_contains r c x = true -> rect x /\ length x = r /\ (x <> [] -> width x = c).
 Proof.
   intros H. apply box_contains_spec in H. destruct H as [Hl Hf]. split; [|split; [exact Hl|]].
@@ -159,15 +144,6 @@ Proof.
 Qed.
 
 (** ** Graphs: well-formedness kept by every builder and by [remove_node] *)
-
-Definition edges_in (n : nat) (es : list edge) : Prop :=
-  Forall (fun e => (e_src e < n)%nat /\ (e_dst e < n)%nat) es.
-
-Record graph_ok (g : graph) : Prop := {
-  ok_removed : length (g_removed g) = g_next g;
-  ok_nodes : length (g_nodes g) = g_next g;
-  ok_edges : edges_in (g_next g) (g_edges g)
-}.
 
 Lemma graph_ok_init I : graph_ok (init_graph I).
 Proof. constructor; simpl; auto. constructor. Qed.
@@ -652,9 +628,6 @@ Proof.
 Qed.
 
 (** ** Padding to the declared sizes *)
-
-Lemma ftype_eqb_eq a b : ftype_eqb a b = true <-> a = b.
-Proof. destruct a, b; simpl; split; intros H; try reflexivity; discriminate. Qed.
 
 Fixpoint nodup_keysb (sh : list (ftype * (nat * nat))) : bool :=
   match sh with
